@@ -17,6 +17,7 @@ import z3
 
 from contracts import merge_contract as mc
 from hv import core, extract, pyvc
+from hv import history
 from hv.driver import Bounded, Spec
 from hv.pyvc import to_z3
 
@@ -387,7 +388,7 @@ SPEC = Spec(
     prop=PROP, level="other",
     functions=[(UT, "merge_kernel_intervals"), (BA, "BreakdownAnalysis._get_gpu_kernel_type_time"), (BA, "BreakdownAnalysis._aggr_gpu_kernel_time"),
                (BA, "BreakdownAnalysis.get_gpu_kernel_breakdown")],
-    units=units, bounded=[Bounded("tables_vs_oracles", bounded), Bounded("aggr_direct", bounded_aggr)],
+    units=units, bounded=[Bounded("tables_vs_oracles", bounded), Bounded("aggr_direct", bounded_aggr), Bounded("history_independence", history.stage(PROP, "kernel_breakdown", "gen"))],
     trusted=["Lean lemmas L1, L3, L4 for the measure reading of the sweep", "a & 2^k on non-negative ints read as (a div 2^k) mod 2",
              "groupby(name)[col].agg([sum, max, min, mean, std]) = one row per name holding that group's aggregates (assumed pandas contract; the aggregator's postconditions are "
              "stated over these aggregate functions); cumsum / quantile kept abstract (the obligations do not depend on the threshold); a per-name total is non-negative (WF5)",
